@@ -605,7 +605,11 @@ fn value_for(rng: &mut Rng, m: &SchemaModel, ty: &TypeRef, depth: usize) -> Stri
     let base = |rng: &mut Rng| -> String {
         match ty.name.as_str() {
             "ID" => format!("\"id{}\"", rng.below(9)),
-            "String" => format!("\"s{}\"", rng.below(9)),
+            // BMP non-ASCII in string literals: columns in chars = UTF-16 units != bytes
+            "String" => match rng.below(4) {
+                0 => format!("\"名前 – café{}\"", rng.below(9)),
+                _ => format!("\"s{}\"", rng.below(9)),
+            },
             "Int" => format!("{}", rng.below(100)),
             "Float" => format!("{}.5", rng.below(10)),
             "Boolean" => if rng.chance(1, 2) { "true".into() } else { "false".into() },
@@ -653,9 +657,10 @@ fn gen_sel(rng: &mut Rng, cx: &mut SelCtx, parent: &str, depth: usize, is_sub_ro
             return None;
         }
         let d = if rng.chance(1, 2) { "skip" } else { "include" };
-        let bool_var = cx.vars.iter().find(|v| v.1 == "Boolean!");
+        let bool_vars: Vec<&(String, String, Option<String>)> = cx.vars.iter().filter(|v| v.1 == "Boolean!").collect();
+        let bool_var = if bool_vars.is_empty() { None } else { Some(*rng.pick(&bool_vars)) };
         match bool_var {
-            Some(v) if rng.chance(1, 2) => Some(format!("@{d}(if: ${})", v.0)),
+            Some(v) if rng.chance(2, 3) => Some(format!("@{d}(if: ${})", v.0)),
             _ => Some(format!("@{d}(if: {})", if rng.chance(1, 2) { "true" } else { "false" })),
         }
     };
@@ -795,7 +800,13 @@ pub fn gen_ops(rng: &mut Rng, m: &SchemaModel, o: &OpsOpts) -> Vec<OpFileModel> 
                 break;
             }
             let on = rng.pick(&nonroot).clone();
-            v.push(FragInfo { name: format!("{}Frag{}", on, g), on, global: g });
+            // some names end in what the naming options use as a suffix
+            let name = match rng.below(6) {
+                0 => format!("{on}{g}Fragment"),
+                1 => format!("{on}{g}Doc"),
+                _ => format!("{on}Frag{g}"),
+            };
+            v.push(FragInfo { name, on, global: g });
             g += 1;
         }
         frags.push(v);
@@ -935,6 +946,10 @@ pub fn gen_ops(rng: &mut Rng, m: &SchemaModel, o: &OpsOpts) -> Vec<OpFileModel> 
             if !o.plain {
                 if rng.chance(1, 3) {
                     vars.push(("flag".into(), "Boolean!".into(), None));
+                    // two boolean variables: the type printer branches over their product
+                    if rng.chance(1, 2) {
+                        vars.push(("other".into(), "Boolean!".into(), None));
+                    }
                 }
                 if rng.chance(1, 3) {
                     vars.push(("ident".into(), "ID!".into(), None));
